@@ -10,6 +10,14 @@ UNIT-CONSISTENT   (a) never add / subtract / store-over quantities of different 
                   (UtM[k] - UtU[k] @ V + UtU[k,k] * V[k] is unit-correct; UtM - V is not), and
                   (b) return a value of degree UtM / UtU on every return path.
 
+BLOCK-INDEPENDENT (rules/affine.py) the HALS row update is the exact minimiser over row k: in an
+                  affine-form abstract domain (value = alpha * old_row + beta, alpha and beta
+                  rational functions of opaque atoms) the coefficient alpha of the stored row is 0
+                  after cancellation, with and without the sparsity / ridge coefficients.  The
+                  textbook "incremental" form V[k] + (UtM[k] - UtU[k] V - ls) / (UtU[k,k] + 2 lr)
+                  -- the formula of the function's own docstring -- has alpha =
+                  2 lr / (UtU[k,k] + 2 lr): a damped step whose fixed point ignores the ridge term.
+
 Rescaling the design (U -> cU) rescales UtM by c and UtU by c^2; an update that mixes units
 gives a result that is not the rescaled solution, i.e. not KKT-optimal for one of the two
 (equivalent) problems.  Checked for hals_nnls (cold / warm start, with and without sparsity
@@ -53,6 +61,10 @@ def run(ctx: Ctx):
         "the clamp where(x < eps, eps, x) / clip(x, a_min=eps) is evaluated as x; proximal_operator is taken as unit-preserving",
     )
     ctx.guarded(unit_consistent, ctx)
+    from .affine import block_independent
+
+    res.rule("BLOCK-INDEPENDENT", "affine-form dependence analysis of the HALS row update: after cancellation the new row k does not depend on the old row k (coefficient 0 as a rational function of UtU[k, k] and the coefficients), for every combination of the optional sparsity / ridge coefficients -- the exact coordinate minimiser is a function of the other rows only", floor=4)
+    ctx.guarded(block_independent, ctx, "BLOCK-INDEPENDENT", "tensorly.solvers.nnls.hals_nnls", "V", ["sparsity_coefficient is not None", "ridge_coefficient is not None"])
 
 
 def unit_consistent(ctx: Ctx):
